@@ -337,8 +337,7 @@ Section IsForeign.
                  = Ok (serr_match (g_serr (c_g ci)) (VF t c p u))).
     { destruct (g_serr (c_g ci)) as [|k|k|t0 c0 p0 u0]; try reflexivity.
       simpl. destruct c0; simpl.
-      - destruct (N.eqb t0 t); simpl; [|reflexivity]. destruct c; simpl; [|reflexivity].
-        rewrite andb_true_r. reflexivity.
+      - destruct (N.eqb t0 t); simpl; [|reflexivity]. destruct c; simpl; reflexivity.
       - rewrite !andb_false_r. reflexivity. }
     destruct (W i ci Ei) as [Fi Si _ | o co Fi Eo _ _ _ Ni Pi].
     - rewrite Fi in *. rewrite Hs. simpl. destruct (g_isfac (c_g ci)); simpl;
@@ -378,13 +377,177 @@ Section IsForeign.
 End IsForeign.
 
 (* ---------------------------------------------------------------- foreign sources *)
-Lemma loop_foreign_src guard st vb tc :
-  (tc = comparable vb) ->
-  forall va f, pure va = true -> val_depth va <= f ->
-  exists b, errors_is_loop guard (S f) st va vb tc = Ok b /\ (is_gerr_val vb = true -> b = false)
-            /\ (va = VNil -> b = false).
+Lemma foreign_eq_test t c p u vb :
+  exists b0, (if comparable vb then iface_eq (VF t c p u) vb else Ok false) = Ok b0
+             /\ (is_gerr_val vb = true -> b0 = false).
 Proof.
-  intros Htc va. induction va as [| | |t c p u IH]; intros f P D; simpl in P; try discriminate.
-  - exists false. rewrite loop_S. simpl. destruct tc; destruct vb; simpl; auto.
-    + (* VNil == VNil can only arise when the target is nil; the loop is never entered with it *)
-      eexists. Abort.
+  destruct vb as [|k|k|t' c' p' u']; simpl; try (exists false; split; [reflexivity|auto]).
+  destruct c'; simpl.
+  - destruct (N.eqb t t'); simpl; [|exists false; split; [reflexivity|auto]].
+    destruct c; simpl; eexists; (split; [reflexivity|intros H; discriminate]).
+  - exists false. split; [reflexivity|auto].
+Qed.
+
+(* a foreign error without gerror values in its Unwrap chain, as the source of errors.Is:
+   never a panic, and never a match with a gerror target *)
+Lemma loop_foreign_src guard st vb tc :
+  tc = comparable vb ->
+  forall u t c p f, pure u = true -> val_depth u <= f ->
+  exists b, errors_is_loop guard (S f) st (VF t c p u) vb tc = Ok b
+            /\ (is_gerr_val vb = true -> b = false).
+Proof.
+  intros ->. induction u as [|i|i|t0 c0 p0 u0 IH]; intros t c p f P D; simpl in P; try discriminate.
+  - rewrite loop_S. cbn [as_gerror unwrap_val].
+    destruct (foreign_eq_test t c p VNil vb) as [b0 [E0 G0]]. rewrite E0.
+    destruct b0; cbn [bind_true].
+    + exists true. split; [reflexivity|exact G0].
+    + exists false. split; [reflexivity|auto].
+  - rewrite loop_S. cbn [as_gerror unwrap_val].
+    destruct (foreign_eq_test t c p (VF t0 c0 p0 u0) vb) as [b0 [E0 G0]]. rewrite E0.
+    destruct b0; cbn [bind_true].
+    + exists true. split; [reflexivity|exact G0].
+    + simpl in D. destruct f as [|f]; [lia|].
+      apply (IH t0 c0 p0 f P). lia.
+Qed.
+
+Lemma errors_is_foreign_src guard st t c p u vb :
+  pure u = true ->
+  exists b, errors_is_gen guard st (VF t c p u) vb = Ok b /\ (is_gerr_val vb = true -> b = false).
+Proof.
+  intros P. unfold errors_is_gen. simpl is_nil. simpl orb.
+  destruct (is_nil vb) eqn:Nb.
+  - destruct vb; simpl in Nb; try discriminate. exists false. split; [reflexivity|auto].
+  - unfold is_fuel.
+    replace (4 + length st + val_depth (VF t c p u) + val_depth vb)
+      with (S (3 + length st + val_depth (VF t c p u) + val_depth vb)) by lia.
+    apply loop_foreign_src; [reflexivity|exact P|simpl; lia].
+Qed.
+
+(* ---------------------------------------------------------------- ExtractFactoryReference *)
+Lemma extract_gerr st v j cj :
+  wf st -> gv st v = Some j -> nth_error st j = Some cj ->
+  extract_fref st v =
+  if is_nil (g_fref (c_g cj)) then (if g_isfac (c_g cj) then VG j else VNil) else VG (origin st j).
+Proof.
+  intros W G Ej. destruct (gv_cell _ _ _ G) as [c' [E' A]]. rewrite Ej in E'. injection E' as <-.
+  unfold extract_fref. rewrite A, Ej.
+  destruct (W j cj Ej) as [Fj _ _ | o co Fj _ _ _ _ Nj _].
+  - rewrite Fj. simpl. destruct (g_isfac (c_g cj)); reflexivity.
+  - rewrite Fj, Nj. simpl. rewrite (origin_der st j cj o Ej Fj). reflexivity.
+Qed.
+
+(* ---------------------------------------------------------------- calls preserve well-formedness *)
+(* what may be passed as the error argument of Convert / ConvertS *)
+Definition admissible (st : store) (v : val) : Prop :=
+  v = VNil \/ (exists i, gv st v = Some i) \/ (exists t c p u, v = VF t c p u /\ pure u = true).
+
+Lemma shape_extend st ext c : shape st c -> shape (st ++ ext) c.
+Proof.
+  intros [F S X | o co F Eo Fo So Xo N P]; [apply ShRoot; assumption|].
+  eapply ShDer; eauto. rewrite nth_error_app1; [exact Eo|]. apply nth_error_Some. congruence.
+Qed.
+
+Lemma pure_admissible_serr st v : admissible st v -> is_gerr_val v = false -> pure v = true.
+Proof.
+  intros [->|[[i G]|[t [c [p [u [-> P]]]]]]] Hg; simpl; auto.
+  destruct v; simpl in *; try discriminate.
+Qed.
+
+Lemma nth_error_snoc_inv {A} (l : list A) x i y :
+  nth_error (l ++ [x]) i = Some y -> (i < length l /\ nth_error l i = Some y) \/ (i = length l /\ y = x).
+Proof.
+  intros H. destruct (Nat.lt_ge_cases i (length l)) as [Hl|Hl].
+  - left. split; [exact Hl|]. rewrite nth_error_app1 in H; assumption.
+  - right. rewrite nth_error_app2 in H by exact Hl.
+    destruct (i - length l) as [|k] eqn:E; simpl in H.
+    + injection H as <-. split; [lia|reflexivity].
+    + destruct k; discriminate.
+Qed.
+
+(* the record CloneBase builds from a well-formed cell *)
+Lemma clone_shape st i ci w a xo bp ep :
+  wf st -> nth_error st i = Some ci -> bp = VG i ->
+  admissible st (a_err a) -> is_gerr_val (eval_e a (w_serr w)) = false ->
+  shape (st ++ [mkC (apply_wiring w (c_g ci) bp ep a) xo])
+        (mkC (apply_wiring w (c_g ci) bp ep a) xo).
+Proof.
+  intros W Ei -> Adm Ng.
+  assert (Pe : pure (eval_e a (w_serr w)) = true).
+  { destruct (w_serr w); simpl in *; [reflexivity|]. apply (pure_admissible_serr st); assumption. }
+  set (g' := apply_wiring w (c_g ci) (VG i) ep a).
+  assert (Hf : g_isfac g' = false).
+  { unfold g', apply_wiring, clone_base.
+    repeat match goal with |- context [if ?c then _ else _] => destruct c end; reflexivity. }
+  destruct (W i ci Ei) as [Fi Si Xi | o co Fi Eo Fo So Xo Ni Pi].
+  - (* receiver is a root: the clone points back at it *)
+    assert (Hr : g_fref g' = VG i).
+    { unfold g', apply_wiring, clone_base. rewrite Fi. simpl.
+      repeat match goal with |- context [if ?c then _ else _] => destruct c end; reflexivity. }
+    assert (Hs : g_serr g' = eval_e a (w_serr w)).
+    { unfold g', apply_wiring, clone_base. rewrite Si. simpl.
+      destruct (eval_e a (w_serr w)); simpl;
+      repeat match goal with |- context [if ?c then _ else _] => destruct c end; reflexivity. }
+    eapply ShDer with (o := i) (co := ci); simpl; fold g'; auto.
+    + rewrite nth_error_app1; [exact Ei|]. apply nth_error_Some. congruence.
+    + rewrite Hs. exact Pe.
+  - (* receiver is derived: the clone inherits its back-reference *)
+    assert (Hr : g_fref g' = VG o).
+    { unfold g', apply_wiring, clone_base. rewrite Fi. simpl.
+      repeat match goal with |- context [if ?c then _ else _] => destruct c end; reflexivity. }
+    assert (Hs : pure (g_serr g') = true).
+    { unfold g', apply_wiring, clone_base.
+      destruct (g_serr (c_g ci)) eqn:Es; simpl in Pi |- *; try discriminate;
+      destruct (eval_e a (w_serr w)); simpl in Pe |- *; try discriminate;
+      repeat match goal with |- context [if ?c then _ else _] => destruct c end; simpl; auto. }
+    eapply ShDer with (o := o) (co := co); simpl; fold g'; auto.
+    rewrite nth_error_app1; [exact Eo|]. apply nth_error_Some. congruence.
+Qed.
+
+(* a wiring table records the converted error only behind the early return *)
+Definition guarded_wiring (xw : method -> wiring) : Prop :=
+  forall m, w_serr (xw m) = EErr -> w_guard (xw m) = true.
+
+Lemma base_wiring_guarded : guarded_wiring base_wiring.
+Proof. intros m; destruct m; simpl; congruence. Qed.
+
+Lemma ng_of_guard w a :
+  (w_serr w = EErr -> w_guard w = true) -> w_guard w && is_gerr_val (a_err a) = false ->
+  is_gerr_val (eval_e a (w_serr w)) = false.
+Proof.
+  intros G H. destruct (w_serr w); simpl; [reflexivity|].
+  rewrite (G eq_refl) in H. exact H.
+Qed.
+
+Lemma call_wf xw st v m a st' r :
+  guarded_wiring xw ->
+  wf st -> admissible st (a_err a) -> call xw st v m a = Some (st', r) ->
+  wf st' /\ (exists k, gv st' r = Some k) /\ (exists ext, st' = st ++ ext).
+Proof.
+  intros GW W Adm H.
+  destruct v as [|i|i|]; simpl in H; try discriminate.
+  - destruct (nth_error st i) as [ci|] eqn:Ei; [|discriminate].
+    destruct (w_guard (base_wiring m) && is_gerr_val (a_err a)) eqn:Gd.
+    + injection H as <- <-. split; [exact W|]. split; [|exists []; rewrite app_nil_r; reflexivity].
+      apply andb_true_iff in Gd as [_ Gd].
+      destruct Adm as [E|[[k G]|[t [c [p [u [E _]]]]]]]; [rewrite E in Gd; discriminate|eauto|rewrite E in Gd; discriminate].
+    + injection H as <- <-.
+      pose proof (ng_of_guard _ a (base_wiring_guarded m) Gd) as Ng.
+      split; [|split; [|eexists; reflexivity]].
+      * intros k c Ek. apply nth_error_snoc_inv in Ek as [[Hk Ek]|[-> ->]].
+        -- apply shape_extend. exact (W k c Ek).
+        -- apply (clone_shape st i ci _ a None (VG i) (VG i) W Ei eq_refl Adm Ng).
+      * exists (length st). simpl. rewrite nth_error_app2, Nat.sub_diag by lia. reflexivity.
+  - destruct (nth_error st i) as [ci|] eqn:Ei; [|discriminate].
+    destruct (c_x ci) as [x|] eqn:X; [|discriminate].
+    destruct (w_guard (xw m) && is_gerr_val (a_err a)) eqn:Gd.
+    + injection H as <- <-. split; [exact W|]. split; [|exists []; rewrite app_nil_r; reflexivity].
+      apply andb_true_iff in Gd as [_ Gd].
+      destruct Adm as [E|[[k G]|[t [c [p [u [E _]]]]]]]; [rewrite E in Gd; discriminate|eauto|rewrite E in Gd; discriminate].
+    + injection H as <- <-.
+      split; [|split; [|eexists; reflexivity]].
+      * intros k c Ek. apply nth_error_snoc_inv in Ek as [[Hk Ek]|[-> ->]].
+        -- apply shape_extend. exact (W k c Ek).
+        -- pose proof (ng_of_guard _ a (GW m) Gd) as Ng.
+           apply (clone_shape st i ci _ a (Some (to_primary x)) (VG i) (VX i) W Ei eq_refl Adm Ng).
+      * exists (length st). simpl. rewrite nth_error_app2, Nat.sub_diag by lia. reflexivity.
+Qed.
